@@ -336,6 +336,8 @@ def property_anchor_files(prop: str) -> List[str]:
                      'panqec/decoders/sweepmatch/_sweep_match_decoder.py',
                      'panqec/decoders/sweepmatch/_rotated_sweep_match_decoder.py',
                      'panqec/decoders/belief_propagation/mbp_decoder.py'],
+             'C14': ['panqec/simulation/_batch_simulation.py', 'panqec/simulation/_base_simulation.py',
+                     'panqec/simulation/_direct_simulation.py', 'panqec/utils.py'],
              'C18': ['panqec/error_models/_pauli_error_model.py'],
              'C17': ['panqec/simulation/_base_simulation.py', 'panqec/simulation/_batch_simulation.py',
                      'panqec/analysis.py'],
